@@ -354,4 +354,339 @@ Section UmLitFacts.
       unfold ul_entry in Ex. rewrite At', Ek', Am in Ex. inversion Ex; subst x.
       apply (in_map fst) in Ix. exact Ix.
   Qed.
+
+  (* ---------------- do_prune ---------------- *)
+  Lemma um_prune_eq : forall (s : um K V) now,
+      um_prune s now = (um_with s (fst (um_prune_list now (um_list s) 0)), snd (um_prune_list now (um_list s) 0)).
+  Proof. intros s now. unfold um_prune. destruct (um_prune_list now (um_list s) 0); reflexivity. Qed.
+
+  Lemma walk_ok : forall (s0 : uml K V) now l xs m c,
+      Forall2 (cellr (ul_nodes s0) m) l xs -> NoDup (keys xs) -> NoDup (keys m) -> incl (keys m) (keys xs) ->
+      exists l' m' pre,
+        ul_prune_walk s0 l m now c = Ok (l', m', snd (um_prune_list now xs c)) /\
+        l = pre ++ l' /\
+        Forall2 (cellr (ul_nodes s0) m') l' (fst (um_prune_list now xs c)) /\
+        NoDup (keys m') /\ incl (keys m') (keys (fst (um_prune_list now xs c))) /\
+        NoDup (keys (fst (um_prune_list now xs c))).
+  Proof.
+    intros s0 now. induction l as [|a l IH]; intros xs m c F NDx NDm Hi; inversion F as [|a' b l0 xs' Cab F']; subst.
+    - exists [], m, []. simpl. repeat split; assumption.
+    - destruct b as [k [v e]]. pose proof Cab as [C1 C2]. simpl in C1, C2.
+      simpl in NDx. inversion NDx as [|y t NIk NDx']; subst.
+      simpl. rewrite C1. simpl. destruct (e <=? now)%Z.
+      + unfold map_erase. rewrite C2. cbn [bind].
+        destruct (IH xs' (remk k m) (S c)) as (l' & m' & pre & Ew & El & Fw & NDw & Hiw & NDxw).
+        * eapply F2_weaken_in; [exact F'|]. intros a0 b0 _ Ib [D1 D2]. split; [exact D1|].
+          rewrite assoc_remk_other; [exact D2|]. intro E. apply NIk. rewrite <- E. apply (in_map fst). exact Ib.
+        * exact NDx'.
+        * apply nodup_remk; exact NDm.
+        * intros k' I. apply keys_remk_in in I. destruct I as [I N]. apply Hi in I. simpl in I.
+          destruct I as [E|I]; [congruence | exact I].
+        * exists l', m', (a :: pre). rewrite Ew, El. repeat split; assumption.
+      + exists (a :: l), m, []. simpl. repeat split; try assumption.
+  Qed.
+
+  Lemma ul_do_prune_rep2 : forall l s now, rep2 l s ->
+      exists l0, ul_do_prune l now = Ok (l0, snd (um_prune s now)) /\ rep2 l0 (fst (um_prune s now)) /\
+                 ul_ttl l0 = ul_ttl l.
+  Proof.
+    intros l s now (T & NDl & NDm & NDn & Hiff & Hb & F & Hi & NDx).
+    destruct (walk_ok l now (ul_list l) (um_list s) (ul_map l) 0 F NDx NDm Hi)
+      as (l' & m' & pre & Ew & El & Fw & NDw & Hiw & NDxw).
+    unfold ul_do_prune. rewrite Ew. cbn [bind]. rewrite um_prune_eq. cbn [fst snd].
+    eexists. split; [reflexivity|]. split; [|reflexivity].
+    assert (Hsub : forall n, In n l' -> In n (ul_list l)).
+    { intros n I. rewrite El. apply in_or_app. right. exact I. }
+    unfold rep2; simpl. split; [exact T|].
+    split; [rewrite El in NDl; eapply u_nodup_app_r; exact NDl|].
+    split; [exact NDw|].
+    split; [apply nodup_filter_keys; exact NDn|].
+    split; [|split; [intros n I; apply Hb; apply Hsub; exact I|]].
+    - intros n. split; intro I.
+      + pose proof (proj1 (Hiff n) (Hsub n I)) as Ik. unfold keys in Ik. apply in_map_iff in Ik.
+        destruct Ik as ([n0 t] & E & Ip). simpl in E. subst n0.
+        unfold keys. apply in_map_iff. exists (n, t). split; [reflexivity|].
+        apply filter_In. split; [exact Ip|]. simpl. apply u_mem_nat_In. exact I.
+      + unfold keys in I. apply in_map_iff in I. destruct I as ([n0 t] & E & Ip). simpl in E. subst n0.
+        apply filter_In in Ip. destruct Ip as [_ Im]. simpl in Im. apply u_mem_nat_In. exact Im.
+    - split; [|split; assumption].
+      eapply F2_weaken_in; [exact Fw|]. intros a b Ia _ [D1 D2]. split; [|exact D2].
+      rewrite (assoc_filter _ a _ NDn), D1. simpl. rewrite (proj2 (u_mem_nat_In a l') Ia). reflexivity.
+  Qed.
+
+  (* ---------------- do_insert / do_update / do_erase on the representation ---------------- *)
+  Lemma rep2_insert : forall l s k v ex, rep2 l s -> assoc k (um_list s) = None ->
+      rep2 {| ul_ttl := ul_ttl l; ul_map := ul_map l ++ [(k, (v, Some (ul_next l)))];
+              ul_list := ul_list l ++ [ul_next l];
+              ul_nodes := ul_nodes l ++ [(ul_next l, {| tn_expire := ex; tn_keyed := k |})];
+              ul_next := S (ul_next l) |}
+           (um_with s (um_list s ++ [(k, (v, ex))])).
+  Proof.
+    intros l s k v ex R Ex. pose proof (rep2_lookup l s k R) as Em. rewrite Ex in Em.
+    destruct R as (T & NDl & NDm & NDn & Hiff & Hb & F & Hi & NDx).
+    assert (Fl : ~ In (ul_next l) (ul_list l)) by (intro I; apply Hb in I; lia).
+    assert (Fn : assoc (ul_next l) (ul_nodes l) = None).
+    { apply assoc_none. intro I. apply Hiff in I. contradiction. }
+    unfold rep2; simpl. split; [exact T|].
+    split; [apply nodup_snoc; assumption|].
+    split; [rewrite u_keys_app; simpl; apply nodup_snoc; [exact NDm | apply assoc_none; exact Em]|].
+    split; [rewrite u_keys_app; simpl; apply nodup_snoc; [exact NDn | apply assoc_none; exact Fn]|].
+    split; [|split].
+    - intros n. rewrite u_keys_app. simpl. rewrite !in_app_iff. simpl. rewrite (Hiff n). tauto.
+    - intros n I. apply in_app_or in I. destruct I as [I|[E|[]]]; [apply Hb in I; lia | lia].
+    - split; [|split].
+      + apply Forall2_app.
+        * eapply F2_weaken_in; [exact F|]. intros a b _ _ [D1 D2]. split; rewrite assoc_app.
+          -- rewrite D1. reflexivity.
+          -- rewrite D2. reflexivity.
+        * constructor; [|constructor]. split; simpl; rewrite assoc_app.
+          -- rewrite Fn. simpl. rewrite Nat.eqb_refl. reflexivity.
+          -- rewrite Em. simpl. rewrite eqb_rfl. reflexivity.
+      + rewrite !u_keys_app. simpl. intros k' I. apply in_app_or in I. apply in_or_app.
+        destruct I as [I|I]; [left; apply Hi; exact I | right; exact I].
+      + rewrite u_keys_app. simpl. apply nodup_snoc; [exact NDx | apply assoc_none; exact Ex].
+  Qed.
+
+  Lemma rep2_update : forall l s k v ex n v0 e0, rep2 l s ->
+      In n (ul_list l) -> cellr (ul_nodes l) (ul_map l) n (k, (v0, e0)) ->
+      rep2 {| ul_ttl := ul_ttl l; ul_map := setk k (v, Some n) (ul_map l);
+              ul_list := remove_nat n (ul_list l) ++ [n];
+              ul_nodes := setk n {| tn_expire := ex; tn_keyed := k |} (ul_nodes l);
+              ul_next := ul_next l |}
+           (um_with s (remk k (um_list s) ++ [(k, (v, ex))])).
+  Proof.
+    intros l s k v ex n v0 e0 (T & NDl & NDm & NDn & Hiff & Hb & F & Hi & NDx) Inl Cn.
+    pose proof Cn as [Cn1 Cn2]. simpl in Cn1, Cn2.
+    assert (Hin : forall a, In a (remove_nat n (ul_list l) ++ [n]) <-> In a (ul_list l)).
+    { intros a. rewrite in_app_iff, (u_in_remove_nat n _ a NDl). simpl. split.
+      - intros [[I _]|[E|[]]]; [exact I | subst a; exact Inl].
+      - intros I. destruct (Nat.eq_dec a n) as [E|N]; [right; left; congruence | left; split; assumption]. }
+    unfold rep2; simpl. split; [exact T|].
+    split; [apply nodup_snoc; [apply u_nodup_remove_nat; exact NDl | intro I; apply (u_in_remove_nat n _ n NDl) in I; tauto]|].
+    split; [rewrite u_keys_setk; exact NDm|].
+    split; [rewrite u_keys_setk; exact NDn|].
+    split; [|split].
+    - intros a. rewrite u_keys_setk, Hin. apply Hiff.
+    - intros a I. apply Hin in I. apply Hb; exact I.
+    - split; [|split].
+      + apply Forall2_app.
+        * eapply (F2_remove_gen (cellr (ul_nodes l) (ul_map l))); [exact F | exact NDl | exact NDx | |].
+          -- intros a b _ _ C. exact (cellr_key_iff _ _ _ _ _ _ Cn C).
+          -- intros a b _ _ [D1 D2] Na Nb. split.
+             ++ rewrite u_assoc_setk_other by exact Na. exact D1.
+             ++ rewrite u_assoc_setk_other by exact Nb. exact D2.
+        * constructor; [|constructor]. split; simpl; rewrite u_assoc_setk_same.
+          -- rewrite Cn1. reflexivity.
+          -- rewrite Cn2. reflexivity.
+      + rewrite u_keys_setk, u_keys_app. simpl. intros k' I. apply in_or_app.
+        destruct (Base.eqb_spec k' k) as [E|N]; [right; left; congruence|].
+        left. apply u_in_keys_remk; [apply Hi; exact I | exact N].
+      + rewrite u_keys_app. simpl. apply nodup_snoc; [apply nodup_remk; exact NDx|].
+        intro I. apply keys_remk_in in I. tauto.
+  Qed.
+
+  Lemma rep2_erase : forall l s k n v0 e0, rep2 l s ->
+      In n (ul_list l) -> cellr (ul_nodes l) (ul_map l) n (k, (v0, e0)) ->
+      rep2 {| ul_ttl := ul_ttl l; ul_map := remk k (ul_map l);
+              ul_list := remove_nat n (ul_list l);
+              ul_nodes := remk n (ul_nodes l);
+              ul_next := ul_next l |}
+           (um_with s (remk k (um_list s))).
+  Proof.
+    intros l s k n v0 e0 (T & NDl & NDm & NDn & Hiff & Hb & F & Hi & NDx) Inl Cn.
+    unfold rep2; simpl. split; [exact T|].
+    split; [apply u_nodup_remove_nat; exact NDl|].
+    split; [apply nodup_remk; exact NDm|].
+    split; [apply nodup_remk; exact NDn|].
+    split; [|split].
+    - intros a. rewrite (u_in_remove_nat n _ a NDl). split.
+      + intros [I N]. apply u_in_keys_remk; [apply Hiff; exact I | exact N].
+      + intros I. apply keys_remk_in in I. destruct I as [I N]. split; [apply Hiff; exact I | exact N].
+    - intros a I. apply (u_in_remove_nat n _ a NDl) in I. apply Hb. tauto.
+    - split; [|split].
+      + eapply (F2_remove_gen (cellr (ul_nodes l) (ul_map l))); [exact F | exact NDl | exact NDx | |].
+        * intros a b _ _ C. exact (cellr_key_iff _ _ _ _ _ _ Cn C).
+        * intros a b _ _ [D1 D2] Na Nb. split.
+          -- rewrite assoc_remk_other by exact Na. exact D1.
+          -- rewrite assoc_remk_other by exact Nb. exact D2.
+      + intros k' I. apply keys_remk_in in I. destruct I as [I N].
+        apply u_in_keys_remk; [apply Hi; exact I | exact N].
+      + apply nodup_remk; exact NDx.
+  Qed.
+
+  (* ---------------- do_insert_update / erase / find ---------------- *)
+  Lemma ul_ins_rep2 : forall l s k v a ex, rep2 l s ->
+      exists l', ul_ins l k v a ex = Ok (l', snd (um_ins s k v a ex)) /\ rep2 l' (fst (um_ins s k v a ex)).
+  Proof.
+    intros l s k v a ex R. pose proof (rep2_lookup l s k R) as L.
+    unfold ul_ins, um_ins. destruct (assoc k (um_list s)) as [[v0 e0]|] eqn:Ex.
+    - destruct L as (n & Inl & Cn). pose proof Cn as [Cn1 Cn2]. simpl in Cn1, Cn2. rewrite Cn2.
+      destruct (a_upd a); [|exists l; split; [reflexivity | exact R]].
+      unfold ul_do_update. rewrite Cn2. unfold node_of. rewrite (proj2 (u_mem_nat_In n _) Inl), Cn1.
+      cbn [bind]. rewrite (u_splice_end _ n Inl). cbn [bind]. rewrite u_prev_end_snoc. cbn [bind].
+      eexists. split; [reflexivity|]. simpl. eapply rep2_update; eassumption.
+    - rewrite L. destruct (a_ins a); [|exists l; split; [reflexivity | exact R]].
+      unfold ul_do_insert. cbn [bind]. eexists. split; [reflexivity|]. simpl. apply rep2_insert; assumption.
+  Qed.
+
+  Lemma ul_erase_rep2 : forall l s k, rep2 l s ->
+      exists l', ul_erase l k = Ok (l', snd (um_erase s k)) /\ rep2 l' (fst (um_erase s k)).
+  Proof.
+    intros l s k R. pose proof (rep2_lookup l s k R) as L.
+    unfold ul_erase, um_erase. destruct (assoc k (um_list s)) as [[v0 e0]|] eqn:Ex.
+    - destruct L as (n & Inl & Cn). pose proof Cn as [Cn1 Cn2]. simpl in Cn1, Cn2. rewrite Cn2.
+      unfold ul_do_erase. rewrite Cn2. unfold node_of. rewrite (proj2 (u_mem_nat_In n _) Inl), Cn1.
+      cbn [bind]. eexists. split; [reflexivity|]. simpl. eapply rep2_erase; eassumption.
+    - rewrite L. exists l; split; [reflexivity | exact R].
+  Qed.
+
+  Lemma ul_find_rep2 : forall l s k, rep2 l s -> ul_find l k = um_find s k.
+  Proof.
+    intros l s k R. pose proof (rep2_lookup l s k R) as L. unfold ul_find, um_find.
+    destruct (assoc k (um_list s)) as [[v0 e0]|].
+    - destruct L as (n & _ & _ & C2). simpl in C2. rewrite C2. reflexivity.
+    - rewrite L. reflexivity.
+  Qed.
+
+  Lemma ul_ins_range_rep2 : forall xs l s a ex c, rep2 l s ->
+      exists l', ul_ins_range l xs a ex c = Ok (l', snd (um_ins_range s xs a ex c)) /\
+                 rep2 l' (fst (um_ins_range s xs a ex c)).
+  Proof.
+    induction xs as [|[[z k] v] r IH]; intros l s a ex c R; simpl.
+    - exists l. split; [reflexivity | exact R].
+    - destruct (ul_ins_rep2 l s k v a ex R) as (l1 & E1 & R1). revert E1 R1.
+      destruct (um_ins s k v a ex) as [s1 b]. simpl. intros E1 R1. rewrite E1. cbn [bind].
+      apply IH. exact R1.
+  Qed.
+
+  Lemma ul_erase_range_rep2 : forall ks l s c, rep2 l s ->
+      exists l', ul_erase_range l ks c = Ok (l', snd (um_erase_range s ks c)) /\
+                 rep2 l' (fst (um_erase_range s ks c)).
+  Proof.
+    induction ks as [|k r IH]; intros l s c R; simpl.
+    - exists l. split; [reflexivity | exact R].
+    - destruct (ul_erase_rep2 l s k R) as (l1 & E1 & R1). revert E1 R1.
+      destruct (um_erase s k) as [s1 b]. simpl. intros E1 R1. rewrite E1. cbn [bind].
+      apply IH. exact R1.
+  Qed.
+
+  (* ---------------- one public call ---------------- *)
+  Lemma ul_step_rep2 : forall l s o now rnd, rep2 l s ->
+      exists l', ul_step l o now rnd = Ok (l', snd (um_step s o now rnd)) /\
+                 rep2 l' (fst (um_step s o now rnd)).
+  Proof.
+    intros l s o now rnd R.
+    destruct (ul_do_prune_rep2 l s now R) as (l0 & E0 & R0 & T0).
+    pose proof (rep2_len_map l s R) as Hlen.
+    assert (T : ul_ttl l = um_ttl s) by (destruct R as (T & _); exact T).
+    unfold ul_step, um_step; rewrite T; destruct o;
+      try (exists l; split; [reflexivity | exact R]);
+      try (rewrite E0; cbn [bind fst snd]).
+    - (* Insert *)
+      destruct (ul_ins_rep2 l0 (fst (um_prune s now)) k v a (now + ms (um_ttl s))%Z R0) as (l1 & E1 & R1).
+      revert E1 R1. destruct (um_ins (fst (um_prune s now)) k v a (now + ms (um_ttl s))%Z) as [s1 b]. simpl.
+      intros E1 R1. rewrite E1. cbn [bind]. exists l1. split; [reflexivity | exact R1].
+    - (* InsertRange *)
+      destruct (ul_ins_range_rep2 l1 l0 (fst (um_prune s now)) a (now + ms (um_ttl s))%Z 0 R0) as (l2 & E1 & R1).
+      revert E1 R1. destruct (um_ins_range (fst (um_prune s now)) l1 a (now + ms (um_ttl s))%Z 0) as [s1 b]. simpl.
+      intros E1 R1. rewrite E1. cbn [bind]. exists l2. split; [reflexivity | exact R1].
+    - (* Erase *)
+      destruct (ul_erase_rep2 l0 (fst (um_prune s now)) k R0) as (l1 & E1 & R1).
+      revert E1 R1. destruct (um_erase (fst (um_prune s now)) k) as [s1 b]. simpl.
+      intros E1 R1. rewrite E1. cbn [bind]. exists l1. split; [reflexivity | exact R1].
+    - (* EraseRange *)
+      destruct (ul_erase_range_rep2 l1 l0 (fst (um_prune s now)) 0 R0) as (l2 & E1 & R1).
+      revert E1 R1. destruct (um_erase_range (fst (um_prune s now)) l1 0) as [s1 b]. simpl.
+      intros E1 R1. rewrite E1. cbn [bind]. exists l2. split; [reflexivity | exact R1].
+    - (* Find *)
+      exists l0. rewrite (ul_find_rep2 l0 _ k R0). split; [reflexivity | exact R0].
+    - (* FindRange *)
+      exists l0. split; [|exact R0]. simpl. do 3 f_equal. apply map_ext. intros k.
+      rewrite (ul_find_rep2 l0 _ k R0). reflexivity.
+    - (* FindRangeFill *)
+      exists l0. split; [|exact R0]. simpl. do 3 f_equal. apply map_ext. intros k.
+      rewrite (ul_find_rep2 l0 _ k R0). reflexivity.
+    - (* Clear *)
+      eexists. split; [reflexivity|]. simpl. unfold rep2; simpl.
+      split; [reflexivity|]. do 3 (split; [constructor|]).
+      split; [intros n; tauto|]. split; [intros n []|]. split; [constructor|].
+      split; [intros k []|constructor].
+    - (* Clean *)
+      exists l0. revert E0 R0. destruct (um_prune s now) as [s0 c]. simpl. intros E0 R0.
+      split; [reflexivity | exact R0].
+    - (* Size *)
+      exists l. split; [|exact R]. simpl. unfold um_size. rewrite Hlen. reflexivity.
+    - (* Empty *)
+      exists l. split; [|exact R]. simpl. unfold um_size. rewrite Hlen. reflexivity.
+  Qed.
+
+  (* ======================= the theorems ======================= *)
+  Theorem ul_rep_init : forall ttl, ul_rep (K := K) (V := V) (uml_init ttl) (um_init ttl).
+  Proof.
+    intros ttl. unfold ul_rep, uml_init, um_init; simpl.
+    split; [reflexivity|]. do 3 (split; [constructor|]).
+    split; [intros n; tauto|]. split; [intros n []|]. split; [reflexivity|]. split; [reflexivity|].
+    intros k v tp E. discriminate E.
+  Qed.
+
+  Theorem ul_step_refines : forall t (l : uml K V) (s : um K V) o now rnd,
+      um_inv t s -> (t <= now)%Z -> ul_rep l s ->
+      exists l', ul_step l o now rnd = Ok (l', snd (um_step s o now rnd)) /\
+                 ul_rep l' (fst (um_step s o now rnd)) /\ um_inv now (fst (um_step s o now rnd)).
+  Proof.
+    intros t l s o now rnd I L R.
+    assert (R2 : rep2 l s) by (apply ul_rep_rep2; [exact R | destruct I as (_ & ND & _); exact ND]).
+    destruct (ul_step_rep2 l s o now rnd R2) as (l' & E & R').
+    exists l'. split; [exact E|]. split; [apply rep2_ul_rep; exact R'|].
+    eapply (um_inv_step_any t s o now rnd _ (snd (um_step s o now rnd)) I L).
+    destruct (um_step s o now rnd); reflexivity.
+  Qed.
+
+  Fixpoint ul_run (l : uml K V) (h : list (ev K V)) : res (uml K V * list (ret K V)) :=
+    match h with
+    | [] => Ok (l, [])
+    | e :: r => do x <- ul_step l (e_op e) (e_now e) (e_rnd e);
+                let '(l1, y) := x in
+                do z <- ul_run l1 r; let '(l2, ys) := z in Ok (l2, y :: ys)
+    end.
+
+  Lemma ul_run_refines : forall h t (l : uml K V) (s : um K V),
+      um_inv t s -> mono_from t h -> ul_rep l s ->
+      exists l', ul_run l h = Ok (l', snd (run um_step s h)) /\ ul_rep l' (fst (run um_step s h)).
+  Proof.
+    induction h as [|e r IH]; intros t l s I M R; simpl.
+    - exists l. split; [reflexivity | exact R].
+    - destruct M as [L M].
+      destruct (ul_step_refines t l s (e_op e) (e_now e) (e_rnd e) I L R) as (l1 & D1 & R1 & I1).
+      rewrite D1. cbn [bind]. unfold step_ev.
+      destruct (um_step s (e_op e) (e_now e) (e_rnd e)) as [s1 y1]. simpl in *.
+      destruct (IH (e_now e) l1 s1 I1 M R1) as (l2 & D2 & R2).
+      rewrite D2. cbn [bind].
+      destruct (run um_step s1 r) as [s2 ys]. simpl in *.
+      exists l2. split; [reflexivity | exact R2].
+  Qed.
+
+  Theorem ul_no_UB_on_any_history : forall ttl h,
+      (0 <= ttl)%Z -> mono_from 0 h ->
+      exists l', ul_run (uml_init ttl) h = Ok (l', snd (run um_step (um_init ttl) h)) /\
+                 ul_rep l' (fst (run um_step (um_init ttl) h)).
+  Proof.
+    intros ttl h L M.
+    exact (ul_run_refines h 0%Z (uml_init ttl) (um_init ttl) (um_inv_init ttl 0%Z L) M (ul_rep_init ttl)).
+  Qed.
+
+  (* one value cell per index entry, one list node per index entry: nothing leaks, nothing is
+     destroyed twice *)
+  Theorem ul_cells_match_entries : forall ttl h l' rs,
+      (0 <= ttl)%Z -> mono_from 0 h -> ul_run (uml_init ttl) h = Ok (l', rs) ->
+      List.length (ul_map l') = List.length (ul_list l') /\ List.length (ul_nodes l') = List.length (ul_list l').
+  Proof.
+    intros ttl h l' rs L M E.
+    destruct (ul_no_UB_on_any_history ttl h L M) as (l2 & D & R).
+    rewrite D in E. inversion E; subst l2. clear E.
+    destruct R as (_ & NDl & _ & NDn & Hiff & _ & Hlen & _).
+    split; [exact Hlen|].
+    rewrite <- (u_length_keys (ul_nodes l')).
+    apply Nat.le_antisymm; apply NoDup_incl_length; try assumption; intros n I; apply Hiff; exact I.
+  Qed.
 End UmLitFacts.
